@@ -370,9 +370,7 @@ package transport
 //@        opened(bytes(s.cookieKey), cookieAD(kemPubOf(ref(clientKemEphemeral)), bytes(clientAddr.IP), clientAddr.Port), bytes(cookie[:64])), bytes(cookie))
 //@   ensures err == nil ==> fresh(hs)
 
-//@ func (n *certs.Name) ReadFrom(r io.Reader) (k int64, err error)
-//@   assume name decoding (C11 / C18 cover it): changes only the name it fills
-//@   modifies *n
+// (certs.Name.ReadFrom's contract is in package certs, proved under C18: it changes only the name it fills and the reader's cursor)
 
 //@ func bytes.NewBuffer(buf []byte) (b *bytes.Buffer)
 //@   assume standard library
@@ -409,9 +407,7 @@ package transport
 //@   pure
 //@   ensures err == nil ==> (forall i int :: 0 <= i && i < len(l) ==> l[i] != nil)
 
-//@ func (c *certs.Certificate) ReadFrom(r io.Reader) (k int64, err error)
-//@   assume certificate decoding (C11 / C18 cover it): changes only the certificate it fills
-//@   modifies *c
+// (certs.Certificate.ReadFrom's contract is in package certs: it changes only the certificate it fills and the reader's cursor)
 
 //@ func (s *authkeys.SyncAuthKeySet) VerifyLeaf(leaf *certs.Certificate, opts certs.VerifyOptions) (err error)
 //@   assume membership in the key set (C05) plus certs.VerifyLeafFormat; changes nothing
